@@ -194,6 +194,8 @@ type docIntent struct {
 	keyIDs, svcIDs   []string
 	aka              []string
 	keyList, svcList []interface{}
+	// an opaque document spells a member it has nothing for as an empty list
+	emptyLists bool
 }
 
 func drawDoc(r *rand.Rand) *docIntent {
@@ -222,6 +224,7 @@ func drawDoc(r *rand.Rand) *docIntent {
 		d.keysIn, d.keyList, d.keyIDs = []interface{}{in}, []interface{}{e}, []string{"key0"}
 		d.keys["key0"] = e
 	}
+	d.emptyLists = r.Intn(3) == 0
 	return d
 }
 
@@ -229,9 +232,13 @@ func (d *docIntent) docJSON() M {
 	m := M{}
 	if len(d.keyList) > 0 {
 		m["publicKey"] = d.keyList
+	} else if d.emptyLists {
+		m["publicKey"] = []interface{}{}
 	}
 	if len(d.svcList) > 0 {
 		m["service"] = d.svcList
+	} else if d.emptyLists {
+		m["service"] = []interface{}{}
 	}
 	if len(d.aka) > 0 {
 		m["alsoKnownAs"] = strsI(d.aka)
@@ -507,6 +514,7 @@ func (s *c08State) stepDeactivate(via string) M {
 		signed["anchorUntil"] = w.Until
 	}
 	s.sign(signer, headers, signed)
+	s.lastSigner, s.lastHeaders, s.lastWindow = signer, headers, w
 	commitment := signer.Commitment(s.code)
 	s.deact = true
 	s.keys, s.services, s.aka = map[string]M{}, map[string]M{}, nil
@@ -522,7 +530,7 @@ func (s *c08State) stepDeactivate(via string) M {
 }
 
 // refusals: inputs the builders must refuse because the request would be unacceptable
-var c08Refusals = []string{"equal-commitments", "reused-key", "wrong-hash-algorithm", "empty-opaque-document"}
+var c08Refusals = []string{"equal-commitments", "reused-key", "wrong-hash-algorithm", "empty-opaque-document", "window-beyond-exact"}
 
 // other malformed inputs (no expectation beyond model = implementation)
 var c08Malformed = []string{"no-signer", "signer-without-alg", "extra-header", "no-key", "no-patches", "opaque-and-patches", "no-suffix", "no-reveal",
@@ -599,6 +607,39 @@ func (s *c08State) spoil(st M, how string) bool {
 				info["rc"].(string), s.lastAO, s.lastWindow))
 		default:
 			return false
+		}
+	case "window-beyond-exact":
+		// a bound beyond 2^53 cannot be written by JCS: signed as it is, the request would carry
+		// another window (the neighbouring double) than the one asked for
+		if op == "create" {
+			return false
+		}
+		const two53 = int64(1) << 53
+		w := s.lastWindow
+		switch s.r.Intn(3) {
+		case 0:
+			info["anchorUntil"], w.Until = two53+1, two53
+		case 1:
+			info["anchorFrom"], w.From = two53+1, two53
+		default:
+			info["anchorFrom"], w.From = -two53-1, -two53
+		}
+		// the signer can sign what a builder that does not look would hand it
+		switch op {
+		case "update":
+			s.sign(s.lastSigner, s.lastHeaders, opb.UpdateSigned(s.code, s.lastSigner, opb.Delta(info["uc"].(string), s.lastPatches), w))
+		case "recover":
+			s.sign(s.lastSigner, s.lastHeaders, opb.RecoverSigned(s.code, s.lastSigner, opb.Delta(info["uc"].(string), s.lastPatches),
+				info["rc"].(string), s.lastAO, w))
+		case "deactivate":
+			signed := M{"didSuffix": info["didSuffix"], "revealValue": "", "recoveryKey": s.lastSigner.JWK()}
+			if w.From != 0 {
+				signed["anchorFrom"] = w.From
+			}
+			if w.Until != 0 {
+				signed["anchorUntil"] = w.Until
+			}
+			s.sign(s.lastSigner, s.lastHeaders, signed)
 		}
 	case "no-signer":
 		if op == "create" {
